@@ -27,6 +27,41 @@ TECHNIQUE = {
            'evaluation of Token.prec/assoc; path-sensitive CFG query',
     'C03': 'undefined-attribute lint; CFG must-pass-through on the calling '
            'sequence; frame push/pop effect table; alias check on constructors',
+    'C04': 'CFG ordering / must-pass-through queries on the loop compiler; '
+           'who-may-emit; library-semantics table for bisect',
+    'C05': 'emission pairing on the CFG; affine abstract evaluation of the '
+           'offset arithmetic; call-graph reachability into open branch spans',
+    'C06': 'verdict discipline of the computed parse-routine closure '
+           '(backward path justification), interprocedural must-consume, '
+           'keyword-domain folding, guard dominance, non-None analysis',
+    'C07': 'sanitise-before-sink provenance; clamp-interval evaluation; '
+           'symbolic linear coefficients of the conversion functions',
+    'C08': 'lock-held regions on the CFG (guarded-by), acquire/release '
+           'pairing incl. exception edges, single-start-site and ordering rules',
+    'C09': 'stop-flag dataflow: loop-condition conjunct, ignored wait() '
+           'results, re-arming stores reachable from thread entries, '
+           'post-dominating clean-up',
+    'C11': 'domain agreement over folded constants and normalised '
+           'comparisons; mutating-method/alias rule; regex identity',
+    'C12': 'capability-guard dominance (interprocedural one level), '
+           'decorator audit, fail-value use analysis, None-guard dominance',
+    'C13': 'consistency-group update discipline on the CFG, who-may-mutate '
+           'rules, raw-mutator lint on SortedList',
+    'C14': 'table totality over folded dicts; ordering and sibling-symmetry '
+           'rules on the mode switch; pass-through check',
+    'C15': 'half-open/inclusive bound rule, single-sink rule, ordering on '
+           'the CFG, sibling symmetry of the two axes',
+    'C16': 'regex-AST analysis of the folded token specification; table '
+           'agreement; alternative-order rule',
+    'C17': 'upward-exposed-read (must-define) analysis over persistent '
+           'object state with interprocedural summaries; global-state and '
+           'instruction-store lints',
+    'C18': 'template well-formedness against the lexer keyword/register '
+           'tables; component-coverage rules; arity check',
+    'C19': 'DI binding vs statefulness rule; boolean truth-table equivalence '
+           'of the two field predicates; post-dominance of flush',
+    'C20': 'who-may-call, argument provenance from route handlers, '
+           'escape-at-construction, None-guard dominance, arity check',
 }
 
 
